@@ -18,6 +18,13 @@ MISSED_FIRST = {
     "c06-drop-ignores-middle-snapshots": "T2-compaction-drop (vacuity guard 'exactly two drop sites' made it exit 2; loosened)",
     "c06-file-selection-ignores-sequence": "T6-lookup-key",
     "c08-follower-acked-before-append": "T1-group-ack-after-append",
+    "c14-seek-compaction-skips-level0-closure": "T2-level0-closure/pick_compaction",
+    "c14-level0-expand-no-restart": "(reported by C01's T2-level0-closure only; rule now shared with C14)",
+    "c17-reused-manifest-writer-offset": "(reported by C03's T6-log-reuse-offset only; rule now shared with C17)",
+    "c18-mmap-pread-bounds-wrap": "T2-decoder-guard row for the mapped read in ldb_rfile_pread0",
+    "c18-snappy-literal-copy16": "T2-decoder-guard/decode_blocks:copy (every copy bounded by zn / xn, whatever its length expression)",
+    "c19-repair-log-table-first-sequence": "T5-repair-table-registration, T6-repair-counters/table-max-sequence",
+    "c16-separator-equals-limit": "T2-separator-contract",
 }
 rows = []
 for s in sorted(os.listdir(os.path.join(HERE, "seeded"))):
